@@ -425,6 +425,96 @@ where
 /// The same workload in one process, for the valgrind memcheck stage
 pub struct C10V;
 
+/// Endurance: one workspace / evaluator is used for call A on a two-branch
+/// function, then for `gap - 1` calls on a tiny function, then for call B on
+/// the first function with the opposite decision. `gap` takes the values
+/// around 2^8 and 2^16 at which a narrow generation counter, epoch stamp or
+/// length field inside the reused object would come round again. B must equal
+/// the same call on brand-new objects.
+fn endurance(st: &mut Stats) -> Result<(), Viol> {
+    use fidget_core::Context;
+    use fidget_core::eval::{Function, MathFunction};
+    let mut ctx = Context::new();
+    let (x, y) = (ctx.x(), ctx.y());
+    // g(x), h(y): a few operations each, so that each branch owns SSA slots
+    let mut g = x;
+    let mut h = y;
+    for k in 0..6 {
+        let c = ctx.constant(0.25 + k as f32);
+        g = ctx.mul(g, c).unwrap();
+        g = ctx.sin(g).unwrap();
+        g = ctx.add(g, x).unwrap();
+        h = ctx.add(h, c).unwrap();
+        h = ctx.cos(h).unwrap();
+        h = ctx.mul(h, y).unwrap();
+    }
+    let big = ctx.min(g, h).unwrap();
+    let tiny = ctx.min(x, y).unwrap();
+    let f_big = VmFunction::new(&ctx, &[big]).unwrap();
+    let f_tiny = VmFunction::new(&ctx, &[tiny]).unwrap();
+    let left = mk_trace(&[Choice::Left]);
+    let right = mk_trace(&[Choice::Right]);
+    let viol = |sig: &str, msg: String| Viol { sig: format!("vm:endurance:{sig}"), msg, detail: json!({"function": "min(g(x), h(y)) with 18 operations per branch; filler: min(x, y)"}) };
+    let describe = |f: &VmFunction| format!("{:?}", f.ops());
+    for gap in [255usize, 256, 257, 65535, 65536, 65537] {
+        for (first, second, dir) in [(&left, &right, "left_then_right"), (&right, &left, "right_then_left")] {
+            // ---- simplification workspace
+            let mut ws = <VmFunction as Function>::Workspace::default();
+            let _a = f_big.simplify(first, Default::default(), &mut ws).map_err(|e| viol("simplify_error", e.to_string()))?;
+            for i in 0..gap - 1 {
+                let t = if i % 257 == 3 { &right } else { &left };
+                let r = f_tiny.simplify(t, Default::default(), &mut ws);
+                if r.is_err() {
+                    return Err(viol("simplify_error", "simplifying the filler function failed".into()));
+                }
+            }
+            st.add("endurance_filler_simplifications", gap as u64 - 1);
+            let b = guarded(|| f_big.simplify(second, Default::default(), &mut ws));
+            let fresh = f_big.simplify(second, Default::default(), &mut Default::default()).map_err(|e| viol("simplify_error", e.to_string()))?;
+            st.inc("endurance_workspace_checks");
+            match b {
+                Ok(Ok(b)) => {
+                    if describe(&b) != describe(&fresh) {
+                        return Err(viol(
+                            &format!("workspace_gap_{gap}"),
+                            format!("simplify ({dir}) with a workspace used for {} other simplifications since the first one gives a different function ({} vs {} operations with a fresh workspace)", gap - 1, b.size(), fresh.size()),
+                        ));
+                    }
+                }
+                Ok(Err(e)) => return Err(viol(&format!("workspace_gap_{gap}"), format!("simplify ({dir}) fails with a workspace used for {} other simplifications since the first one: {e}", gap - 1))),
+                Err(pi) => return Err(viol(&format!("workspace_gap_{gap}"), format!("simplify ({dir}) panics with a workspace used for {} other simplifications since the first one: {} at {}", gap - 1, pi.msg, pi.site()))),
+            }
+            // ---- tracing evaluators
+            let (pa, pb) = if dir == "left_then_right" { ([-3.0f32, 0.5], [0.5f32, -3.0]) } else { ([0.5f32, -3.0], [-3.0f32, 0.5]) };
+            let slot = |f: &VmFunction, p: [f32; 2]| -> Vec<f32> {
+                let mut v = vec![0f32; f.vars().len()];
+                for (var, idx) in f.vars().iter() {
+                    v[idx] = if var == fidget_core::var::Var::X { p[0] } else { p[1] };
+                }
+                v
+            };
+            let (bt, tt) = (f_big.point_tape(Default::default()), f_tiny.point_tape(Default::default()));
+            let mut pe = VmFunction::new_point_eval();
+            let _ = pe.eval(&bt, &slot(&f_big, pa));
+            for i in 0..gap - 1 {
+                let _ = pe.eval(&tt, &slot(&f_tiny, if i % 3 == 0 { pa } else { pb }));
+            }
+            let got = pe.eval(&bt, &slot(&f_big, pb)).map(|(v, t)| (v.to_vec(), t.map(|t| t.as_slice().to_vec())));
+            let want = VmFunction::new_point_eval().eval(&bt, &slot(&f_big, pb)).map(|(v, t)| (v.to_vec(), t.map(|t| t.as_slice().to_vec())));
+            st.inc("endurance_evaluator_checks");
+            match (got, want) {
+                (Ok((gv, gt)), Ok((wv, wt))) => {
+                    if gv.len() != wv.len() || gv.iter().zip(&wv).any(|(a, b)| !same_bits(*a, *b)) || gt != wt {
+                        return Err(viol(&format!("point_eval_gap_{gap}"), format!("a point evaluator used {} times on another tape in between gives {gv:?} / {gt:?}, a fresh one {wv:?} / {wt:?}", gap - 1)));
+                    }
+                }
+                _ => return Err(viol(&format!("point_eval_gap_{gap}"), "point evaluation failed".into())),
+            }
+        }
+    }
+    Ok(())
+}
+
 impl Prop for C10V {
     fn id(&self) -> &'static str {
         "C10V"
@@ -454,6 +544,14 @@ impl Prop for C10 {
         "C10"
     }
     fn extra_stage(&self, st: &mut Stats, tier: Tier, seed: u64) {
+        // counters inside reused objects coming round again
+        if std::env::var("FV_NO_ENDURANCE").is_err() {
+            match guarded(|| endurance(st)) {
+                Ok(Ok(())) => {}
+                Ok(Err(v)) => st.violation(0, v.sig, v.msg, v.detail),
+                Err(pi) => st.violation(0, format!("vm:endurance:panic:{}", pi.site()), format!("endurance stage panicked at {}: {}", pi.site(), pi.msg), json!(null)),
+            }
+        }
         // use-after-munmap of recycled code pages, uninitialised scratch
         // lanes after reuse
         crate::props::memcheck::run_memcheck_stage("C10V", st, tier, seed);
